@@ -96,6 +96,9 @@ class Scheduler:
             self._handover(me, nxt)
             self.policy.consumed(me)
             self.trace.append((me, label))
+        fp = getattr(self, "failpoint", None)
+        if fp is not None:
+            fp(me, conn, sql)  # may raise (a lock error where the real database can fail that way)
 
     def point(self, label: str) -> None:
         """Extra yield point for shared in-memory state (called by harness-side wrappers of
@@ -363,7 +366,25 @@ def worker_body(world, msg, ack: bool = True) -> Callable[[], None]:
     return body
 
 
-def run_pair(start_db: str, rows: list[int], policy: Policy, *, events: bool = False, extra_bodies: dict | None = None, drain: bool = True, max_steps: int = 400, same_message: bool = False, keep_world: bool = False):
+def nth_commit_failpoint(thread: str, n: int):
+    """One-shot: the n-th COMMIT of `thread` fails with 'database is locked'."""
+    import sqlite3
+
+    st = {"count": 0, "fired": False}
+
+    def fp(me, conn, sql) -> None:
+        if st["fired"] or me != thread or sql != "COMMIT" or not conn.in_transaction:
+            return
+        if st["count"] == n:
+            st["fired"] = True
+            raise sqlite3.OperationalError("database is locked")
+        st["count"] += 1
+
+    fp.state = st  # type: ignore[attr-defined]
+    return fp
+
+
+def run_pair(start_db: str, rows: list[int], policy: Policy, *, events: bool = False, extra_bodies: dict | None = None, drain: bool = True, max_steps: int = 400, same_message: bool = False, keep_world: bool = False, failpoint=None):
     """Two (or more) designated handler invocations interleaved at statement level from
     the durable state `start_db`; afterwards the rest of the workflow is drained FIFO."""
     from .runs import delivery_run
@@ -374,6 +395,7 @@ def run_pair(start_db: str, rows: list[int], policy: Policy, *, events: bool = F
     w.wf_id = w._exec_side("SELECT id FROM pipeline_executions ORDER BY created_at LIMIT 1").fetchone()[0]
     race_start_seq = w.max_seq()
     sched = Scheduler(policy)
+    sched.failpoint = failpoint
     w.commit_listeners.append(lambda world, idx, conn: sched.commit_event(conn))
     msgs = []
     for rid in rows:
@@ -678,8 +700,11 @@ def race_for_c06(case: dict) -> dict:
                 except Exception as e:  # an operator call that loses a lock race fails visibly; not our concern here
                     w.errors.append(("X", _a, f"{type(e).__name__}: {e}"))
 
-            run, info = race_run(spec, r2, injector=injector, nworkers=3)
+            fp = commit_lock_failpoint(random.Random(s + 1), 0.08) if case.get("faults") else None
+            run, info = race_run(spec, r2, injector=injector, nworkers=3, failpoint=fp)
             obs["operator_action_runs"] += 1
+            if fp is not None:
+                obs["commit_lock_faults_injected"] += fp.fired[0]
         else:
             run, info = run_workers(spec, 3, RandomPolicy(s, 0.3) if j % 2 else PCT(s, 3, 400))
         obs["evaluations"] += 1
@@ -702,7 +727,24 @@ def race_for_c06(case: dict) -> dict:
     return {"violations": uniq, "obs": dict(obs), "keys": sorted(edges), "edges": dict(edges)}
 
 
-def race_run(spec: dict, rng: random.Random, *, events: bool = False, injector=None, nworkers: int | None = None, keep_world: bool = False, world_kw: dict | None = None, pre_hook=None, max_msgs: int = 600, records: list | None = None):
+def commit_lock_failpoint(rng: random.Random, p: float, limit: int = 3):
+    """Failpoint for interleaved runs: now and then a worker's COMMIT fails with 'database is locked' (SQLITE_BUSY
+    while taking the exclusive lock because another connection is reading).  At most `limit` faults per run so that
+    no message runs out of attempts because of the injection."""
+    import sqlite3
+
+    fired = [0]
+
+    def fp(me, conn, sql) -> None:
+        if sql == "COMMIT" and conn.in_transaction and str(me).startswith("W") and fired[0] < limit and rng.random() < p:
+            fired[0] += 1
+            raise sqlite3.OperationalError("database is locked")
+
+    fp.fired = fired  # type: ignore[attr-defined]
+    return fp
+
+
+def race_run(spec: dict, rng: random.Random, *, events: bool = False, injector=None, nworkers: int | None = None, keep_world: bool = False, world_kw: dict | None = None, pre_hook=None, max_msgs: int = 600, records: list | None = None, failpoint=None):
     """Whole-workflow run by 2-4 interleaved worker threads with a seeded random / PCT policy.
     `injector(world, sched, stop)` runs on its own scheduled thread 'X' (it idles with
     sched.point() and acts through the public API, so its statements interleave too)."""
@@ -715,6 +757,7 @@ def race_run(spec: dict, rng: random.Random, *, events: bool = False, injector=N
 
     def with_sched(sched, w):
         holder["s"] = sched
+        sched.failpoint = failpoint
         return None
 
     extra = {}
